@@ -114,6 +114,7 @@ func C10(c *Ctx) int {
 	all = append(all, corpus.LexModes()...)
 	all = append(all, corpus.LexNonGreedy()...)
 	all = append(all, corpus.LexNumbering()...)
+	all = append(all, corpus.LexAccount()...)
 	items2, err := c.Generate(nil, all)
 	if err == nil {
 		gprog2, err2 := c.LoadGen()
@@ -136,7 +137,7 @@ func C10(c *Ctx) int {
 				c.HandleGenCex(o, it, r)
 			}
 			// whole-language product for the default mode of selected items
-			prodItems := map[string]bool{"L-nullbody": true, "L-kw1": true, "L-ovl": true, "L-tri": true, "L-ng7": true, "L-mode1": true, "L-act-poppush": true}
+			prodItems := map[string]bool{"L-null-eq": true, "L-null-mode": true, "L-nullbody": true, "L-kw1": true, "L-ovl": true, "L-tri": true, "L-ng7": true, "L-mode1": true, "L-act-poppush": true}
 			for _, it := range items2 {
 				if !(it.ExitOK && it.Files) {
 					continue
